@@ -2,6 +2,7 @@ package c05
 
 import (
 	"fmt"
+	"math/rand"
 	"strings"
 	"testing"
 
@@ -23,10 +24,10 @@ type CliCase struct {
 	First  bool        `json:"more_first,omitempty"`
 	ToFile bool        `json:"to_file,omitempty"` // result written with -o file instead of stdout
 	InMode string      `json:"in_mode,omitempty"` // how the input stream is handed over (cli.InModes)
-	Cmd    string    `json:"cmd"` // outgroup-args | outgroup-file | midpoint | unroot | sort
-	Names  []string  `json:"names,omitempty"`
-	Remove bool      `json:"remove,omitempty"`
-	Strict bool      `json:"strict,omitempty"`
+	Cmd    string      `json:"cmd"`               // outgroup-args | outgroup-file | midpoint | unroot | sort
+	Names  []string    `json:"names,omitempty"`
+	Remove bool        `json:"remove,omitempty"`
+	Strict bool        `json:"strict,omitempty"`
 }
 
 func (c CliCase) stream() []*ref.Node {
@@ -64,9 +65,12 @@ func checkCli(c CliCase) error {
 		args = []string{"unroot"}
 	case "sort":
 		args = []string{"rotate", "sort"}
+	case "rotate-rand":
+		args = []string{"rotate", "rand", "--seed", "4711"}
 	}
 	return cli.DifferentialIn(args, text, files, outFlag(c.ToFile), c.InMode, func() (string, error) {
 		out := ""
+		first := true
 		for _, m := range c.stream() {
 			t, err := gt.FromModel(m)
 			if err != nil {
@@ -82,6 +86,12 @@ func checkCli(c CliCase) error {
 				t.UnRoot()
 			case "sort":
 				t.SortNeighborsByTips()
+			case "rotate-rand":
+				if first {
+					rand.Seed(4711) // the command seeds the generator once, before the first tree
+					first = false
+				}
+				t.RotateInternalNodes()
 			}
 			if err != nil {
 				// the command stops at the first tree it cannot handle and reports the error
@@ -96,11 +106,11 @@ func checkCli(c CliCase) error {
 func TestC05Cli(t *testing.T) {
 	h.Run(t, h.Spec[CliCase]{
 		Property: "C05", Name: "cli", Quick: 1600, Thorough: 32000,
-		Rule: "`gotree reroot outgroup` (tips as arguments or -l file, -r, --strict; clade, non-clade and absent names), `reroot midpoint`, `unroot`, `rotate sort` on generated trees: the printed tree must be byte-identical to what the library call gives (or both report an error); the library calls themselves are judged by the other checks of C05; the input comes on stdin, as a file, as a gzip file or as a Nexus document (--format nexus, with or without translate table); half of the inputs are streams of 2-3 trees of different sizes and tip sets (every tree must be treated like a single one); non-trivial = multifurcating or rooted input",
+		Rule: "`gotree reroot outgroup` (tips as arguments or -l file, -r, --strict; clade, non-clade and absent names), `reroot midpoint`, `unroot`, `rotate sort`, `rotate rand --seed` on generated trees: the printed tree must be byte-identical to what the library call gives (or both report an error); the library calls themselves are judged by the other checks of C05; the input comes on stdin, as a file, as a gzip file or as a Nexus document (--format nexus, with or without translate table); half of the inputs are streams of 2-3 trees of different sizes and tip sets (every tree must be treated like a single one); non-trivial = multifurcating or rooted input",
 		Gen: func(t *rapid.T, thorough bool) CliCase {
 			o := gen.Opts{MinTips: 3, MaxTips: 12, Rooted: -1, MaxDeg: 5, Lens: gen.AnyPresence, LenVals: gen.DyadicZ, Sups: gen.AnyPresence}
 			m := gen.Tree(t, o)
-			c := CliCase{Tree: m, Cmd: rapid.SampledFrom([]string{"outgroup-args", "outgroup-file", "outgroup-file", "midpoint", "unroot", "sort"}).Draw(t, "cmd")}
+			c := CliCase{Tree: m, Cmd: rapid.SampledFrom([]string{"outgroup-args", "outgroup-file", "outgroup-file", "midpoint", "unroot", "sort", "rotate-rand"}).Draw(t, "cmd")}
 			if strings.HasPrefix(c.Cmd, "outgroup") {
 				tips := m.Tips()
 				if rapid.Bool().Draw(t, "clade") {
